@@ -1161,6 +1161,10 @@ theorem facts_guard :
     Gen.Facts.c12GroupMatchIsAny = some true ∧
     Gen.Facts.c12LenCountsValuedNodesAndRoot = some true ∧
     Gen.Facts.c12SetGroupOwned = some true ∧
+    -- qname / cname matchers (base_domain.NewMatcher) assemble their group the same owning way
+    Gen.Facts.c12MatcherGroupOwned = some true ∧
+    -- the hosts plugin hands every parsed rule to the MixMatcher it answers from (`loadHosts (fun _ => true)`)
+    Gen.Facts.c12HostsLoadsEveryRule = some true ∧
     -- rules with values: hosts.ParseIPs returns the first field as written (`hostsRules id`,
     -- `hosts_table_hit_iff`); the text loader gives every line a string of its own (the maps and the trie
     -- keep substrings of it: the model's rule lists hold values, not views into a read buffer)
@@ -1204,5 +1208,55 @@ example : m1.candidates reNone (b [72, 111, 115, 116, 46, 95, 116, 99, 112, 46, 
 example : m1.candidates reNone (b [72, 111, 115, 116, 46, 127, 116, 99, 112, 46] ++ exampleCom) = [1] := by decide
 -- "A@[\]^_`{-09Z." -> "a@[\]^_`{-09z"
 example : norm (b [65, 64, 91, 92, 93, 94, 95, 96, 123, 45, 48, 57, 90, 46]) = b [97, 64, 91, 92, 93, 94, 95, 96, 123, 45, 48, 57, 122] := by decide
+
+/-! ### Rules whose value is the empty address list (hosts tables)
+
+A hosts line without address is a rule with a value (the empty list). It takes part in the precedence of
+values like every other rule: a name whose most specific rule has no address gets that value, i.e. no
+answer, not the value of a less specific rule. -/
+
+/-- A hosts table loader: every parsed line `(kind, pattern, addresses)` goes to `Add` unless `keep`
+rejects its value. The plugin's loader keeps everything (fact `c12HostsLoadsEveryRule`). -/
+def loadHosts (keep : List Nat → Bool) (m : Mix (List Nat)) : List (Kind × Bytes × List Nat) → Mix (List Nat)
+  | [] => m
+  | (k, p, v) :: rs => loadHosts keep (if keep v then m.add k p v else m) rs
+
+/-- The loader that keeps everything is `Add` line by line: the matcher is the one `mix_precedence`,
+`no_match_iff` and `hosts_table_hit_iff` speak about, loaded with every rule of the table. -/
+theorem loadHosts_all (m : Mix (List Nat)) (rs : List (Kind × Bytes × List Nat)) :
+    loadHosts (fun _ => true) m rs = rs.foldl (fun m r => m.add r.1 r.2.1 r.2.2) m := by
+  induction rs generalizing m with
+  | nil => rfl
+  | cons r rs ih => obtain ⟨k, p, v⟩ := r; simp [loadHosts, ih]
+
+theorem hosts_loader_keeps_every_rule_on_this_tree (m : Mix (List Nat)) (rs : List (Kind × Bytes × List Nat)) :
+    Gen.Facts.c12HostsLoadsEveryRule = some true ∧
+    loadHosts (fun _ => true) m rs = rs.foldl (fun m r => m.add r.1 r.2.1 r.2.2) m :=
+  ⟨by decide, loadHosts_all m rs⟩
+
+/-- domain:example.com => [1], full:b.example.com => no address, keyword:xam => [4]. -/
+def hostsTbl : List (Kind × Bytes × List Nat) :=
+  [(.domain, exampleCom, [1]), (.full, bExampleCom, []), (.keyword, b [120, 97, 109], [4]), (.domain, abExampleCom, [])]
+
+/-- The address-less full / deeper domain rule wins: the name gets the empty list. -/
+theorem address_less_rule_shadows :
+    (loadHosts (fun _ => true) {} hostsTbl).candidates reNone bExampleCom = [[]] ∧
+    (loadHosts (fun _ => true) {} hostsTbl).candidates reNone (b [88, 46] ++ abExampleCom) = [[]] ∧
+    (loadHosts (fun _ => true) {} hostsTbl).candidates reNone exampleCom = [[1]] := by decide
+
+/-- A loader that drops rules without address answers these names from the broader rule. -/
+theorem dropping_loader_answers_from_broader_rule :
+    (loadHosts (fun v => !v.isEmpty) {} hostsTbl).candidates reNone bExampleCom = [[1]] ∧
+    (loadHosts (fun v => !v.isEmpty) {} hostsTbl).candidates reNone (b [88, 46] ++ abExampleCom) = [[1]] := by decide
+
+/-- The qname / cname matchers build their group like a set does (`c12MatcherGroupOwned`: the group starts
+nil and every write is a one-member append onto the matcher's own slice), so `Slices.buildAllOwned` is
+their constructor too: any number of matchers over shared sets keep exactly their own members. -/
+theorem matchers_keep_their_members_on_this_tree (grow : Nat → Nat) (mss : List (List Nat)) :
+    Gen.Facts.c12MatcherGroupOwned = some true ∧
+    ∀ (i : Nat) (s : Slices.Slice) (ms : List Nat),
+      (Slices.buildAllOwned grow [[]] mss).2[i]? = some s → mss[i]? = some ms →
+        Slices.view (Slices.buildAllOwned grow [[]] mss).1 s = ms :=
+  ⟨by decide, (Slices.owned_sets_keep_their_members grow mss [[]] rfl (by decide)).2.2.2⟩
 
 end Props.C12
